@@ -181,6 +181,33 @@ theorem blocked_reply_shape (cfg : Cfg) (b : Mem) (q : Str) (t : Nat) :
 example : (serveDNS { nullroute := "0.0.0.0".toList, null6route := "::".toList } { m := ["example.com.".toList] }
     "ads.example.com.".toList typeAAAA).written.map (·.answer.map (·.data)) = some ["::".toList] := by decide
 
+
+/-- **Every reply is owned by its own query and stays what it was**: serving a
+query appends one reply to the log of replies already handed to writers and
+leaves all earlier ones untouched, and each record of a blocked reply is owned
+by the name that was asked (never by another query's name).  The implementation
+side of this (no record shared between two replies, an earlier reply unchanged
+after later blocked queries) is what the `bl held` / `bl cserve` ops check. -/
+theorem earlier_replies_unchanged (cfg : Cfg) (b : Mem) (log : List Outcome) (q : Str) (t : Nat) :
+    (serveLog cfg b log q t).take log.length = log ∧
+    (serveLog cfg b log q t).length = log.length + 1 ∧
+    ∀ r, (serveDNS cfg b q t).written = some r → ∀ rr ∈ r.answer ++ r.ns, rr.name = q := by
+  refine ⟨by simp [serveLog], by simp [serveLog], ?_⟩
+  intro r hr rr hrr
+  unfold serveDNS at hr
+  simp only at hr
+  split at hr
+  · cases hr
+  · split at hr
+    · cases hr
+    · simp only [Option.some.injEq] at hr
+      subst hr
+      split at hrr
+      · simp at hrr; rw [hrr]
+      · split at hrr
+        · simp at hrr; rw [hrr]
+        · simp at hrr; rw [hrr]
+
 /-- Fact regenerated from the tree: in the default chain the blocklist runs
 before every handler that caches or goes upstream. -/
 theorem blocklist_before_cache_and_upstream :
@@ -198,31 +225,57 @@ steps is an arbitrary interleaving of any number of concurrent `Set` / `Remove`
 point, in any order relative to the others), with an I/O error possible at
 every call.  -/
 
-/-- **The persisted file converges to memory.**  For every interleaving: once
-no snapshot is waiting, no `persist` is in progress and the `persist` of the
-newest snapshot did not end in an I/O error, `<dir>/local` holds exactly the
-lines of the current in-memory list (stale snapshots that arrived late were
-dropped by the version check; failed older ones do not matter). -/
-theorem persist_converges (s0 : PState) (h0 : Init s0) (steps : List Step) :
+/-- **The persisted file converges to the newest snapshot** — for every
+interleaving of API mutations, `persist` steps with I/O errors, AND directory
+reloads (`dirLoad`: the `readBlocklists` walk of `refreshRemote`, which may run
+while a `persist` is between `CreateTemp` and `Rename`): once no snapshot is
+waiting, no `persist` is in progress and the `persist` of the newest snapshot did
+not end in an I/O error, `<dir>/local` holds exactly the lines of the snapshot
+with the highest version.  This rests on `dirLoad` writing no file
+(`dirload_touches_no_file`; checked on the real `readBlocklists` by the `bl
+dirload` op). -/
+theorem persist_converges_file (s0 : PState) (h0 : Init s0) (steps : List Step) :
     let s := run s0 steps
     s.pending = [] → s.inflight = none → s.version > 0 → s.version ∉ s.failed →
-    s.main = some (render { version := s.version, exact := s.mem.m, wild := s.mem.wild }) := by
+    ∃ x ∈ s.taken, x.version = s.version ∧ s.main = some (render x) := by
   intro s hp hi hv hf
   have inv : Inv s0.main s := inv_run s0.main s0 steps (inv_init s0 h0)
-  have htop := inv.top hv
+  obtain ⟨t, ht, htv⟩ := inv.top_exists hv
   have hlp : s.lastPersisted = s.version := by
-    rcases inv.accounted _ htop with h | ⟨f, hf', _⟩ | h | h
+    rcases inv.accounted _ ht with h | ⟨f, hf', _⟩ | h | h
     · rw [hp] at h; cases h
     · rw [hi] at hf'; cases hf'
-    · have := inv.lp_le; simp only at h; omega
-    · exact absurd h hf
+    · have := inv.lp_le; omega
+    · rw [htv] at h; exact absurd h hf
   rcases inv.file (by intro f hf'; rw [hi] at hf'; cases hf') with ⟨h, _⟩ | ⟨x, hx, hxv, hmain⟩
   · omega
-  · rw [hmain]
-    have := inv.top_unique x hx (by omega)
-    have hx' : x = { version := s.version, exact := s.mem.m, wild := s.mem.wild } := by
-      cases x; simp only [Snap.mk.injEq]; simp only at this hxv; exact ⟨by omega, this.1, this.2⟩
-    rw [hx']
+  · exact ⟨x, hx, by omega, hmain⟩
+
+/-- **The persisted file converges to memory.**  As above, and that snapshot is
+the current in-memory list, provided no directory reload has changed memory
+since the last snapshot (`dirty = false`: `readBlocklists` merges with the
+non-persisting `set`, so what it adds is on disk only after the next mutation). -/
+theorem persist_converges (s0 : PState) (h0 : Init s0) (steps : List Step) :
+    let s := run s0 steps
+    s.pending = [] → s.inflight = none → s.version > 0 → s.version ∉ s.failed → s.dirty = false →
+    s.main = some (render { version := s.version, exact := s.mem.m, wild := s.mem.wild }) := by
+  intro s hp hi hv hf hd
+  have inv : Inv s0.main s := inv_run s0.main s0 steps (inv_init s0 h0)
+  obtain ⟨x, hx, hxv, hmain⟩ := persist_converges_file s0 h0 steps hp hi hv hf
+  rw [hmain]
+  have := inv.top_unique hd x hx hxv
+  have hx' : x = { version := s.version, exact := s.mem.m, wild := s.mem.wild } := by
+    cases x; simp only [Snap.mk.injEq]; simp only at this hxv; exact ⟨hxv, this.1, this.2⟩
+  rw [hx']
+
+/-- **A directory reload touches no file**: it reads `local` and a staging file
+but leaves the main file, the staging file of a `persist` in progress, the
+pending snapshots and both version counters exactly as they were. -/
+theorem dirload_touches_no_file (s : PState) :
+    (step s .dirLoad).main = s.main ∧ (step s .dirLoad).inflight = s.inflight ∧
+    (step s .dirLoad).pending = s.pending ∧ (step s .dirLoad).lastPersisted = s.lastPersisted ∧
+    (step s .dirLoad).version = s.version ∧ crashImage (step s .dirLoad) = crashImage s := by
+  refine ⟨rfl, rfl, rfl, rfl, rfl, rfl⟩
 
 /-- **An interruption leaves a complete file.**  At every point of every
 interleaving — in particular between any two of temp-file creation, each write,
@@ -288,6 +341,7 @@ theorem main_changes_only_by_complete_rename (m0 : Option (List Str)) (s : PStat
     split
     · split <;> rfl
     · rfl
+  | dirLoad => left; rfl
   | rename ok =>
     unfold step; simp only
     cases hin : s.inflight with
@@ -306,13 +360,14 @@ theorem main_changes_only_by_complete_rename (m0 : Option (List Str)) (s : PStat
 
 /-- the version check is what makes the newest snapshot win: a stale snapshot
 that reaches `persist` after a newer one is dropped (non-vacuity of
-`persist_converges`: two mutations, persisted newest first). -/
+`persist_converges`: two mutations, persisted newest first, with directory
+reloads while the staging file is half written, complete, and gone). -/
 theorem persist_converges_example :
     let a : Str := "a.com.".toList
     let b : Str := "*.b.com.".toList
-    let s := run {} ([.mutate (.set a), .mutate (.set b), .begin 1 true] ++ List.replicate 3 (.write true) ++
-      [.sync true, .close true, .rename true, .commit, .begin 0 true])
-    s.pending = [] ∧ s.inflight = none ∧ s.version = 2 ∧ s.failed = [] ∧
+    let s := run {} ([.mutate (.set a), .mutate (.set b), .begin 1 true] ++ List.replicate 2 (.write true) ++
+      [.dirLoad, .write true, .sync true, .dirLoad, .close true, .rename true, .commit, .begin 0 true, .dirLoad])
+    s.pending = [] ∧ s.inflight = none ∧ s.version = 2 ∧ s.failed = [] ∧ s.dirty = false ∧
       s.main = some [headerLine, "a.com.".toList, "*.b.com.".toList] := by
   decide
 
@@ -427,13 +482,13 @@ in-memory list does — for clean keys; and it is exactly the in-memory list whe
 no entry covers another (`reload_equals_memory_partial`). -/
 theorem converged_file_reloads (s0 : PState) (h0 : Init s0) (steps : List Step) (q : Str) :
     let s := run s0 steps
-    s.pending = [] → s.inflight = none → s.version > 0 → s.version ∉ s.failed →
+    s.pending = [] → s.inflight = none → s.version > 0 → s.version ∉ s.failed → s.dirty = false →
     WF s.mem →
     (∀ n ∈ snapNames { version := s.version, exact := s.mem.m, wild := s.mem.wild }, CleanName n) →
     ∃ lines, s.main = some lines ∧
       «exists» (parseHostFile { m := [], wild := [], w := s.mem.w } (fileText lines)) q = «exists» s.mem q := by
-  intro s hp hi hv hf hwf hclean
-  exact ⟨_, persist_converges s0 h0 steps hp hi hv hf, reload_file_match_equivalent s.mem hwf s.version hclean q⟩
+  intro s hp hi hv hf hd hwf hclean
+  exact ⟨_, persist_converges s0 h0 steps hp hi hv hf hd, reload_file_match_equivalent s.mem hwf s.version hclean q⟩
 
 /-
 Full statement of `reload_equals_memory` (FALSE, counter-witness `reload_ne_memory`):
